@@ -946,6 +946,14 @@ func (g *Gen) Valid() Fragment {
 			if t == nil {
 				continue
 			}
+			if g.T.Bool(1, 8) {
+				// a loop of required input fields that runs through a loaded input
+				// type by way of an extension (such an input cannot be given a value
+				// any more; the library accepts the schema)
+				n := g.fresh("ZStep")
+				return Fragment{Kind: "input_required_loop_through_extend", Mutates: true,
+					Text: fmt.Sprintf("input %s {\n  of: %s!\n}\nextend input %s {\n  %s: %s!\n}\n", n, t.Name, t.Name, g.fresh("k"), n)}
+			}
 			// exactly one field per extend block: Input.Extend iterates a map
 			// (half of them with a default: every literal of that type written
 			// earlier gains the field when it is coerced again)
